@@ -34,12 +34,22 @@ def stripZeros : Nat → Int → Nat × Int
 /-- the decimal without trailing zeros in the mantissa (what the canonical token prints) -/
 def canonDec (d : Dec) : Dec := ⟨(stripZeros d.e d.m).2, (stripZeros d.e d.m).1⟩
 
+/-- insert before the first member whose name is not smaller (stable insertion) -/
+def insertField (kv : String × JVal) : Fields → Fields
+  | [] => [kv]
+  | x :: t => if kv.1 ≤ x.1 then kv :: x :: t else x :: insertField kv t
+
+/-- members sorted by name, members of the same name in their order (structural: `decide` evaluates it) -/
+def sortFields : Fields → Fields
+  | [] => []
+  | kv :: t => insertField kv (sortFields t)
+
 mutual
 /-- canonical form: numbers normalised, objects sorted by member name (stable) -/
 def canon : JVal → JVal
   | .num d => .num (canonDec d)
   | .arr xs => .arr (canonList xs)
-  | .obj fs => .obj ((canonFields fs).mergeSort (fun a b => decide (a.1 ≤ b.1)))
+  | .obj fs => .obj (sortFields (canonFields fs))
   | v => v
 def canonList : List JVal → List JVal
   | [] => []
@@ -465,14 +475,18 @@ def ToolObs.isOk : ToolObs → Bool
   | .ok _ _ => true
   | .other => false
 
+def pubInOk (ownI : Schema) (pi : Option Schema) : Bool :=
+  match pi with | some p => sameSchema p ownI | none => false
+
+def pubOutOk (ownO : Option Schema) (po : Option (Option Schema)) : Bool :=
+  match po, ownO with
+  | some none, none => true
+  | some (some p), some o => sameSchema p o
+  | _, _ => false
+
 /-- the advertised schemas against the tool's own -/
 def pubClause (ownI : Schema) (ownO : Option Schema) (pi : Option Schema) (po : Option (Option Schema)) : Option Clause :=
-  let okI := match pi with | some p => sameSchema p ownI | none => false
-  let okO := match po, ownO with
-    | some none, none => true
-    | some (some p), some o => sameSchema p o
-    | _, _ => false
-  if okI && okO then none else if okI then some .pubOut else some .pubIn
+  if pubInOk ownI pi && pubOutOk ownO po then none else if pubInOk ownI pi then some .pubOut else some .pubIn
 
 /-! ### the driver's bookkeeping -/
 
